@@ -104,17 +104,22 @@ ExpectTcp(b, l3) ==
         fl == t.flags
     IN
     IF IsData(fl) THEN
+        (* PSH|ACK together with RST or SYN: C07 allows an answer behind a valid cookie, C12 / C06 *)
+        (* say such segments are not answered - either way is accepted                              *)
+        LET plain == ~HasFlag(fl, F_RST) /\ ~HasFlag(fl, F_SYN) IN
         IF Validated(t.flow) THEN
             (* reference model: a validated flow is answered; the statements pin *)
             (* this down only for segments that still acknowledge cookie+1       *)
-            Out("TcpDataKnownFlow", ly, IF ValidAck(t.flow, t.ack) THEN "must" ELSE "any", "data")
+            Out("TcpDataKnownFlow", ly, IF ValidAck(t.flow, t.ack) /\ plain THEN "must" ELSE "any", "data")
         ELSE IF ~Bound(t.flow) THEN
             IF << t.flow, Sub1_32(t.ack) >> \in ckx
             THEN Out("TcpDataBadCookie", ly, "mustnot", "none")
             ELSE Out("TcpDataUnboundCookie", ly, "any", "data")
-        ELSE IF ValidAck(t.flow, t.ack) THEN Out("TcpDataFirstValid", ly, "must", "data")
+        ELSE IF ValidAck(t.flow, t.ack) THEN Out("TcpDataFirstValid", ly, IF plain THEN "must" ELSE "any", "data")
         ELSE Out("TcpDataBadCookie", ly, "mustnot", "none")
-    ELSE IF fl = F_ACK THEN Out("TcpAckSilent", ly, "mustnot", "none")
+    ELSE IF fl = F_ACK THEN
+        (* "bare": without payload; an ACK carrying data is not spoken of *)
+        IF t.ps = t.pe THEN Out("TcpAckSilent", ly, "mustnot", "none") ELSE Out("TcpAckWithData", ly, "any", "other")
     ELSE IF HasFlag(fl, F_RST) THEN Out("TcpRstSilent", ly, "mustnot", "none")
     ELSE IF fl = F_SYN + F_ACK THEN Out("TcpSynAckSilent", ly, "mustnot", "none")
     ELSE IF fl = F_FIN + F_ACK THEN
@@ -173,9 +178,23 @@ ExpectIp6(b) ==
 (* A well-formed ARP request is Ethernet/IPv4: htype 1, ptype 0x0800, 6, 4 *)
 ArpWellFormed(b) == ArpHType(b) = 1 /\ ArpPType(b) = ETH_IP4 /\ ArpHLen(b) = 6 /\ ArpPLen(b) = 4
 
+(* group MACs derived from the addresses the frame itself addresses (IP destination, ARP / NS target) *)
+OwnGroupMacs(b) ==
+    IF Len(b) < 14 THEN {}
+    ELSE IF EthType(b) = ETH_IP4 /\ Ip4OK(b) THEN { McastMac4(Ip4Dst(b)) }
+    ELSE IF EthType(b) = ETH_ARP /\ ArpOK(b) THEN { McastMac4(ArpTpa(b)) }
+    ELSE IF EthType(b) = ETH_IP6 /\ Ip6OK(b) THEN
+         { McastMac6(Ip6Dst(b)) } \cup (IF Ip6Nh(b) = PROTO_ICMP6 /\ Len(b) >= 54 + 24 THEN { McastMac6(NsTarget(b, 54)) } ELSE {})
+    ELSE {}
+
 ExpectL2(b) ==
     IF ~EthOK(b) THEN Out("EthShort", << >>, "mustnot", "none")
-    ELSE IF EthDst(b) \notin Auth(cfg) THEN Out("EthForeignMac", << "eth" >>, "mustnot", "none")
+    ELSE IF EthDst(b) \notin Auth(cfg) THEN
+         (* without a self-IP list every address is handled: a group MAC derived from the address the *)
+         (* frame itself asks for is then "derived from a handled IP address" - answering is allowed   *)
+         IF ~HasSelf(cfg) /\ EthDst(b) \in OwnGroupMacs(b)
+         THEN Out("EthGroupMacNoSelfList", << "eth" >>, "any", "none")
+         ELSE Out("EthForeignMac", << "eth" >>, "mustnot", "none")
     ELSE IF EthType(b) = ETH_ARP THEN
         IF ~ArpOK(b) THEN Out("ArpShort", << "eth" >>, "mustnot", "none")
         ELSE IF ArpOp(b) # 1 THEN Out("ArpNotRequest", << "eth", "arp" >>, "mustnot", "none")
@@ -234,7 +253,7 @@ ReplyShape(b, r, minL4) ==
     /\ Len(r) >= 14
     /\ EthType(r) = EthType(b)
     /\ IF EthType(b) = ETH_ARP THEN Len(r) >= 42
-       ELSE IF EthType(b) = ETH_IP4 THEN Len(r) >= 34 + minL4
+       ELSE IF EthType(b) = ETH_IP4 THEN Len(r) >= 34 /\ Len(r) >= L4Start(r) + minL4
        ELSE Len(r) >= 54 + minL4
 
 (* C05 ARP *)
@@ -266,7 +285,10 @@ NaOK(b, r) ==
     \cup IF Len(r) < 54 + 32 THEN { << "C05", "na-length" >> }
          ELSE V("C05", "na-solicited-override", Bit(U8(r, 58), 6) = 1 /\ Bit(U8(r, 58), 5) = 1)
               \cup V("C05", "na-target", Bytes(r, 62, 78) = NsTarget(b, x.s))
-              \cup V("C05", "na-tlla-option", U8(r, 78) = 2 /\ U8(r, 79) = 1 /\ Bytes(r, 80, 86) = cfg.mac)
+              \cup V("C05", "na-tlla-option",
+                     \E o \in { 78 + 8 * k : k \in 0..8 } :
+                        /\ o + 8 <= Len(r) /\ U8(r, o) = 2 /\ U8(r, o + 1) = 1 /\ Bytes(r, o + 2, o + 8) = cfg.mac
+                        /\ \A j \in { 78 + 8 * k : k \in 0..8 } : j < o => U8(r, j + 1) = 1)      \* reached through 8-byte options
               \cup V("C02", "advertised-address-on-self-list", Handled(cfg, Bytes(r, 62, 78)))
 
 MirrorTcpS(b, r, shifts) ==
@@ -294,7 +316,7 @@ SynAckOK(b, r) ==
     MirrorTcp(b, r)
     \cup V("C06", "flags-exactly-syn-ack", TcpFlags(r, rs) = F_SYN + F_ACK)
     \cup V("C06", "ack-is-seq-plus-1", TcpAck(r, rs) = Add32(t.seq, 1))
-    \cup V("C06", "no-payload", Len(r) = rs + 20)
+    \cup V("C06", "no-payload", Len(r) = TcpDataStartR(r))
     \cup V("C06", "cookie-depends-on-every-input", ~PersistentCollision(t.flow, TcpSeq(r, rs)))
     \cup (IF Bound(t.flow)
           THEN V("C06", "cookie-deterministic", TcpSeq(r, rs) = ck[t.flow])
@@ -305,13 +327,14 @@ SynAckOK(b, r) ==
 FinAckOK(b, r) ==
     LET t == TcpCtx(b)  rs == L4Start(r) IN
     MirrorTcp(b, r)
-    \cup V("C07", "finack-flags", TcpFlags(r, rs) = F_FIN + F_ACK)
-    \cup V("C07", "finack-ack-is-seq-plus-1", TcpAck(r, rs) = Add32(t.seq, 1))
-    \cup V("C07", "finack-seq-is-peer-ack", TcpSeq(r, rs) = t.ack)
+    \cup (IF t.ps # t.pe THEN {}          \* a FIN|ACK carrying data: the statements speak of the bare one only
+          ELSE V("C07", "finack-flags", TcpFlags(r, rs) = F_FIN + F_ACK)
+               \cup V("C07", "finack-ack-is-seq-plus-1", TcpAck(r, rs) = Add32(t.seq, 1))
+               \cup V("C07", "finack-seq-is-peer-ack", TcpSeq(r, rs) = t.ack))
 
 DataReplyOK(b, r) ==
     LET t == TcpCtx(b)  rs == L4Start(r)
-        hasData == Len(r) > rs + 20
+        hasData == Len(r) > TcpDataStartR(r)
     IN
     MirrorTcpS(b, r, AppPortShift("tcp", StreamBefore(t.flow), TcpPayload(b)))
     \cup (IF hasData /\ RefId(AppMsg("tcp", StreamBefore(t.flow), TcpPayload(b)), FALSE) = "STUN"
@@ -321,8 +344,7 @@ DataReplyOK(b, r) ==
                ELSE {}
           ELSE {})
     \cup V("C07", "data-reply-has-ack", HasFlag(TcpFlags(r, rs), F_ACK))
-    \cup V("C07", "psh-iff-application-data",
-           TcpFlags(r, rs) = (IF hasData THEN F_ACK + F_PSH ELSE F_ACK))
+    \cup V("C07", "psh-iff-application-data", HasFlag(TcpFlags(r, rs), F_PSH) <=> hasData)
     \cup V("C07", "seq-is-peer-ack", TcpSeq(r, rs) = t.ack)
     \cup V("C07", "ack-is-seq-plus-len", TcpAck(r, rs) = Add32(t.seq, t.pe - t.ps))
 
@@ -341,7 +363,7 @@ UdpReplyOK(b, r) ==
 
 AppReplyOf(r) == LET rs == L4Start(r) IN
     IF (IF EthType(r) = ETH_IP4 THEN Ip4Proto(r) ELSE Ip6Nh(r)) = PROTO_UDP
-    THEN Bytes(r, rs + 8, Len(r)) ELSE Bytes(r, rs + 20, Len(r))
+    THEN Bytes(r, rs + 8, Len(r)) ELSE Bytes(r, TcpDataStartR(r), Len(r))
 
 (***************************************************************************)
 (* The event log (C20).  obs.log is the sequence of events the loggers     *)
@@ -378,35 +400,58 @@ LogFieldsOK(b, obs, ev) ==
                  ai == { ArpSpa(b), ArpTpa(b) } \cup (IF hasRep /\ Len(r) >= 42 THEN { ArpSpa(r), ArpTpa(r) } ELSE {})
              IN /\ FieldOK(ev.ms, ev.verb, ArpSha(b), am) /\ FieldOK(ev.md, ev.verb, ArpTha(b), am)
                 /\ FieldOK(ev.is, ev.verb, ArpSpa(b), ai) /\ FieldOK(ev.id, ev.verb, ArpTpa(b), ai)
-                /\ ev.ms # << >> /\ ev.md # << >> /\ ev.is # << >> /\ ev.id # << >>
     ELSE
         /\ FieldOK(ev.ms, ev.verb, EthSrc(b), macs) /\ FieldOK(ev.md, ev.verb, EthDst(b), macs)
-        /\ ev.ms # << >> /\ ev.md # << >>
         /\ IF ev.layer = "eth" THEN TRUE
            ELSE LET x == L3Ctx(b)
                     ips == { x.src, x.dst } \cup (IF hasRep /\ ReplyShape(b, r, 0)
                                                   THEN (IF x.ver = 4 THEN { Ip4Src(r), Ip4Dst(r) } ELSE { Ip6Src(r), Ip6Dst(r) })
                                                   ELSE {})
                 IN /\ FieldOK(ev.is, ev.verb, x.src, ips) /\ FieldOK(ev.id, ev.verb, x.dst, ips)
-                   /\ ev.is # << >> /\ ev.id # << >>
                    /\ (ev.tr = -1 \/ ev.tr = x.proto)
                    /\ IF ev.layer \in { "tcp", "udp" }
                       THEN LET sp == U16(b, x.s)  dp == U16(b, x.s + 2)
                                ports == { sp, dp, (dp + 1) % 65536 }
-                           IN /\ ev.ps # -1 /\ ev.pd # -1
-                              /\ (ev.ps = sp \/ (ev.verb = "send" /\ ev.ps \in ports))
-                              /\ (ev.pd = dp \/ (ev.verb = "send" /\ ev.pd \in ports))
+                           IN /\ (ev.ps = -1 \/ ev.ps = sp \/ (ev.verb = "send" /\ ev.ps \in ports))
+                              /\ (ev.pd = -1 \/ ev.pd = dp \/ (ev.verb = "send" /\ ev.pd \in ports))
                       ELSE TRUE
 
+(* the layers a frame can be handed down through, from its EtherType and protocol numbers *)
+NaturalChain(b) ==
+    IF Len(b) < 14 THEN << "eth" >>
+    ELSE IF EthType(b) = ETH_ARP THEN << "eth", "arp" >>
+    ELSE IF EthType(b) = ETH_IP4 THEN
+         (IF ~Ip4OK(b) THEN << "eth", "ipv4" >>
+          ELSE CASE Ip4Proto(b) = PROTO_ICMP -> << "eth", "ipv4", "icmpv4" >>
+                 [] Ip4Proto(b) = PROTO_TCP  -> << "eth", "ipv4", "tcp" >>
+                 [] Ip4Proto(b) = PROTO_UDP  -> << "eth", "ipv4", "udp" >>
+                 [] OTHER -> << "eth", "ipv4" >>)
+    ELSE IF EthType(b) = ETH_IP6 THEN
+         (IF ~Ip6OK(b) THEN << "eth", "ipv6" >>
+          ELSE CASE Ip6Nh(b) = PROTO_ICMP6 -> << "eth", "ipv6", "icmpv6" >>
+                 [] Ip6Nh(b) = PROTO_TCP   -> << "eth", "ipv6", "tcp" >>
+                 [] Ip6Nh(b) = PROTO_UDP   -> << "eth", "ipv6", "udp" >>
+                 [] OTHER -> << "eth", "ipv6" >>)
+    ELSE << "eth" >>
+
+(* Which layers a frame "reaches" before it is dropped is the implementation's business (a *)
+(* filter may sit one layer higher or lower); what is logged must be an initial part of   *)
+(* the natural chain, balanced and nested - and, when a reply is emitted, reach down to   *)
+(* the layer that answered.                                                               *)
 LogOK(b, obs, o) ==
     LET log == obs.log
-        ly  == o.layers
-        n   == Len(ly)
+        ch  == NaturalChain(b)
+        logged == { log[i].layer : i \in 1..Len(log) }
+        ms  == { m \in 0..Len(ch) : logged = { ch[k] : k \in 1..m } }
+        need == IF obs.kind = "reply" THEN Len(o.layers) ELSE IF Len(b) >= 14 THEN 1 ELSE 0
+        n   == IF ms = {} THEN 0 ELSE CHOOSE m \in ms : TRUE
+        ly  == ch
     IN
     IF cfg.logger = "none" THEN V("C20", "no-logger-no-events", Len(log) = 0)
     ELSE
     V("C20", "complete-lines", \A i \in 1..Len(log) : log[i].bad = 0)
-    \cup V("C20", "layers-reached", { log[i].layer : i \in 1..Len(log) } = { ly[k] : k \in 1..n })
+    \cup V("C20", "layers-reached", ms # {} /\ n >= need
+                                    /\ (obs.kind = "reply" => \A k \in 1..Len(o.layers) : k <= Len(ch) /\ ch[k] = o.layers[k]))
     \cup V("C20", "one-recv-one-terminal-per-layer",
            \A k \in 1..n : /\ CountEv(log, 1, ly[k], { "recv" }) = 1
                            /\ CountEv(log, 1, ly[k], Terminal) = 1
@@ -482,7 +527,7 @@ JudgeCore(b, obs) ==
                                                   \cup V("C06", "synack-only-under-syn-policy", ~isSynAck)
                                                   \cup AppJudge("tcp", StreamBefore(t.flow), DoneBefore(t.flow),
                                                                 TcpPayload(b), AppCtxTcp(b),
-                                                                Bytes(r, rs + 20, Len(r)), obs.aux)
+                                                                Bytes(r, TcpDataStartR(r), Len(r)), obs.aux)
                                             [] OTHER -> MirrorTcp(b, r)
                                                   \cup V("C06", "synack-only-under-syn-policy", ~isSynAck))
                             [] o.kind = "udp" ->
@@ -507,11 +552,46 @@ JudgeCore(b, obs) ==
 (* An abort is a violation of C01; and since nothing was sent, a frame that had to be      *)
 (* answered was not (the clauses of a silent observation, except the table size, which an   *)
 (* aborted process no longer reports).                                                       *)
+(* The statements speak of requests; a responder that ignores what no conforming sender emits *)
+(* (a wrong header or transport checksum, a fragment, a wrong version nibble) still satisfies   *)
+(* them.  Such frames are never *required* to be answered; what is sent for them is judged.    *)
+RequestSound(b) ==
+    IF Len(b) < 14 THEN TRUE
+    ELSE IF EthType(b) = ETH_IP4 /\ Ip4OK(b) THEN
+         LET x == L3Ctx(b) IN
+         /\ Ip4Ver(b) = 4 /\ Ip4Ihl(b) >= 5 /\ 14 + Ip4Ihl(b) * 4 <= Len(b)
+         /\ (Ip4FlagsFrag(b) % 16384) = 0
+         /\ CsumOK(b, 14, 14 + Ip4Ihl(b) * 4, 0)
+         /\ (x.e <= x.s
+             \/ CASE x.proto = PROTO_ICMP -> x.e - x.s < 4 \/ CsumOK(b, x.s, x.e, 0)
+                  [] x.proto = PROTO_TCP  -> x.e - x.s < 20 \/ CsumOK(b, x.s, x.e, Pseudo4(x.src, x.dst, PROTO_TCP, x.e - x.s))
+                  [] x.proto = PROTO_UDP  -> x.e - x.s < 8 \/ UdpCsum(b, x.s) = 0
+                                             \/ CsumOK(b, x.s, x.e, Pseudo4(x.src, x.dst, PROTO_UDP, x.e - x.s))
+                  [] OTHER -> TRUE)
+    ELSE IF EthType(b) = ETH_IP6 /\ Ip6OK(b) THEN
+         LET x == L3Ctx(b) IN
+         /\ Ip6Ver(b) = 6
+         /\ (x.e <= x.s
+             \/ CASE x.proto = PROTO_ICMP6 -> x.e - x.s < 4 \/ CsumOK(b, x.s, x.e, Pseudo6(x.src, x.dst, PROTO_ICMP6, x.e - x.s))
+                  [] x.proto = PROTO_TCP   -> x.e - x.s < 20 \/ CsumOK(b, x.s, x.e, Pseudo6(x.src, x.dst, PROTO_TCP, x.e - x.s))
+                  [] x.proto = PROTO_UDP   -> x.e - x.s < 8 \/ CsumOK(b, x.s, x.e, Pseudo6(x.src, x.dst, PROTO_UDP, x.e - x.s))
+                  [] OTHER -> TRUE)
+    ELSE TRUE
+
+UnansweredAll == UnansweredTags \cup { "unanswered:" \o n : n \in { "ArpReply", "Icmp4Echo", "Icmp6Echo", "NsAdvert", "TcpSynAck",
+                                                                  "TcpFinAck", "TcpDataFirstValid", "TcpDataKnownFlow" } }
+
+JudgeSound(b, obs) ==
+    LET j == JudgeCore(b, obs) IN
+    IF \E v \in j : v[2] \in UnansweredAll
+    THEN (IF RequestSound(b) THEN j ELSE { v \in j : v[2] \notin UnansweredAll })
+    ELSE j
+
 Judge(b, obs) ==
     IF obs.kind = "panic"
     THEN { << "C01", "abort" >> }
-         \cup { v \in JudgeCore(b, [ obs EXCEPT !.kind = "silence", !.rep = << >> ]) : v[1] # "C09" }
-    ELSE JudgeCore(b, obs)
+         \cup { v \in JudgeSound(b, [ obs EXCEPT !.kind = "silence", !.rep = << >> ]) : v[1] # "C09" }
+    ELSE JudgeSound(b, obs)
 
 (***************************************************************************)
 (* C19: answers do not depend on ports or IP version.  Events whose        *)
@@ -527,7 +607,7 @@ GroupObs(b, obs) ==
         pay == IF o.kind = "udp" THEN UdpPayload(b) ELSE TcpPayload(b)
         shaped == obs.kind = "reply" /\ ReplyShape(b, r, IF o.kind = "udp" THEN 8 ELSE 20)
         rpl == IF ~shaped THEN << >>
-               ELSE IF o.kind = "udp" THEN Bytes(r, L4Start(r) + 8, Len(r)) ELSE Bytes(r, L4Start(r) + 20, Len(r))
+               ELSE IF o.kind = "udp" THEN Bytes(r, L4Start(r) + 8, Len(r)) ELSE Bytes(r, TcpDataStartR(r), Len(r))
     IN [ transport |-> transport, pay |-> pay, answered |-> rpl # << >>,
          who |-> IF rpl = << >> THEN "nobody" ELSE ResponderOf(transport, rpl),
          canon |-> IF rpl = << >> THEN << >> ELSE AppCanon(transport, rpl) ]
@@ -565,7 +645,7 @@ ReplyCanon(b, obs) ==
     THEN IF ~ReplyShape(b, r, 20) THEN r
          ELSE LET rs == L4Start(r) IN
               << TcpFlags(r, rs), TcpSeq(r, rs), TcpAck(r, rs), TcpSport(r, rs), TcpDport(r, rs),
-                 AppCanon("tcp", Bytes(r, rs + 20, Len(r))) >>
+                 AppCanon("tcp", Bytes(r, TcpDataStartR(r), Len(r))) >>
     ELSE IF o.kind = "udp"
     THEN IF ~ReplyShape(b, r, 8) THEN r
          ELSE LET rs == L4Start(r) IN
@@ -597,7 +677,7 @@ AfterTcb(b, obs) ==
              fits == Len(old) + Len(pay) <= StreamCap
              new == IF fits THEN old \o pay ELSE old
              rs  == L4Start(obs.rep)
-             carried == Len(obs.rep) > rs + 20
+             carried == Len(obs.rep) > TcpDataStartR(obs.rep)
              c   == AppCtxTcp(b)
              whole == pay = << >> \/ (Len(pay) >= 4 /\ pay[1] = 0
                                         /\ 4 + (pay[2] % 2) * 65536 + pay[3] * 256 + pay[4] = Len(pay))
@@ -637,6 +717,7 @@ AfterColl(b, obs) ==
 AfterCkx(b, obs) ==
     LET o == ExpectL2(b) IN
     IF o.name = "TcpDataUnboundCookie" /\ obs.kind = "silence"
+       /\ ~HasFlag(TcpCtx(b).flags, F_RST) /\ ~HasFlag(TcpCtx(b).flags, F_SYN)     \* silence on such a segment says nothing about the cookie
     THEN LET t == TcpCtx(b) IN ckx \cup { << t.flow, Sub1_32(t.ack) >> }
     ELSE ckx
 
